@@ -383,8 +383,33 @@ def handleHist (prop : String) (fs : List (String × String)) : String := Id.run
     idx := idx + 1
   return s!"{if agree then "agree" else "DISAGREE"} {match bad with | none => "ok" | some b => "BAD:" ++ b} nt={if effects ≥ 3 then 1 else 0} br=eff{min effects 6} {String.intercalate ";" (notes.reverse.take 2)}"
 
+/-- C18: alive gossip over the packet path; model = source gate ∧ inner-address gate -/
+def handleSrc (fs : List (String × String)) : String := Id.run do
+  if (get fs "err").isSome then return "PARSE create"
+  let srcOK := getD fs "src" "0" == "1"
+  let some inner := getNat fs "inner" | return "PARSE inner"
+  let listed := getD fs "listed" "0" == "1"
+  let recorded := getD fs "recorded" "0" == "1"
+  let events := (getNat fs "events").getD 0
+  let panicked := getD fs "panic" "0" == "1"
+  let innerOK := [0, 1, 2, 4, 7].contains inner
+  let expect := srcOK && innerOK
+  let bad : Option String :=
+    if panicked then some "panic"
+    else if !srcOK && (listed || recorded || events > 0) then some s!"alive-from-disallowed-source-had-effect:inner={inner}"
+    else if !innerOK && (listed || recorded || events > 0) then some s!"disallowed-address-admitted:inner={inner},carrier={getD fs "carrier" "?"}"
+    else none
+  return s!"{if listed == expect then "agree" else "DISAGREE"} {match bad with | none => "ok" | some b => "BAD:" ++ b} nt={if srcOK then 1 else 0} br=src-{getD fs "carrier" "?"} "
+
+def handleConc (fs : List (String × String)) : String :=
+  let overlap := (getNat fs "overlap").getD 0
+  let calls := (getNat fs "callbacks").getD 0
+  s!"{if overlap == 0 then "agree" else "DISAGREE"} {if overlap == 0 then "ok" else s!"BAD:concurrent-event-callbacks:{overlap}-of-{calls}"} nt={if calls > 50 then 1 else 0} br=conc "
+
 def handle (prop kind : String) (fs : List (String × String)) : String :=
   match kind with
+  | "src" => handleSrc fs
+  | "conc" => handleConc fs
   | "hist" => handleHist prop fs
   | _ => "PARSE kind"
 
